@@ -326,7 +326,7 @@ Cause(g, e, r, A, O, h0) ==
              /\ (   (a \in O[k].dup)
                   \/ (\E j2 \in Holders(e, r, A) : a \in O[j2].dup)
                   \/ (r.t = "offer" /\ (~had \/ (O[k].offer = a /\ O[k].old))
-                         /\ (\E j3 \in CIDs \ {k} : O[j3].offer = a /\ ~(O[j3].old /\ ~O[j3].lx))) )
+                         /\ (\E j3 \in CIDs \ {k} : O[j3].offer = a /\ O[j3].last # a /\ ~(O[j3].old /\ ~O[j3].lx))) )
      THEN "KF_OfferNotReserved"       \* handed out while a fresh OFFER of it to another client was outstanding
      ELSE IF g = "C11_NotOthersTracked" /\ had
      THEN "KF_SessionNotRechecked"    \* re-offer / re-acknowledgement of k's address does not consult the session again
@@ -371,7 +371,9 @@ PropMsg(e, out, h0, cap) ==
           IN IF r.t = "nak" THEN /\ acked' = [A2 EXCEPT ![k] = Nil] /\ obs' = O2 /\ verdict' = renew
              ELSE LET had == a # NoA /\ (o2.offer = a \/ AIp(A2, k) = a \/ o2.last = a)
                       req == IF e.kind = "discover" /\ e.rdisc = a /\ a # NoA /\ ~had THEN o2.req \cup {a} ELSE o2.req
-                      dup == IF r.t = "offer" /\ a # NoA /\ (~had \/ (o2.offer = a /\ o2.old)) /\ (\E j \in CIDs \ {k} : O2[j].offer = a /\ ~(O2[j].old /\ ~O2[j].lx))    \* an offer the server still holds
+                      dup == IF r.t = "offer" /\ a # NoA /\ (~had \/ (o2.offer = a /\ o2.old)) /\ (\E j \in CIDs \ {k} : O2[j].offer = a /\ O2[j].last # a /\ ~(O2[j].old /\ ~O2[j].lx))
+                             \* an offer the server still holds -- but not the re-offer of j's own lease: that lease carries the
+                             \* address in Addr.IP, which findByIP does see
                              THEN o2.dup \cup {a} ELSE o2.dup
                       \* an expired offer repeated although the address is meanwhile acknowledged to / tracked for another
                       stl == IF e.kind = "discover" /\ a # NoA /\ o2.offer = a /\ o2.old /\ AIp(A2, k) # a /\ ~o2.lx
